@@ -27,7 +27,7 @@ from sim.world import Sim, fresh_dir
 
 PROPERTY = "C04"
 LEVEL = "exploration"
-TIERS = {"quick": 12000, "thorough": 1000000}
+TIERS = {"quick": 40000, "thorough": 3000000}
 CHUNK = 80
 RULE = ("each run builds a chain of 1-4 components (real RateLimiter, AccessControl, "
         "CertificateAuth and scripted allow/deny/raise/slow ones, any order), a transport mode, "
